@@ -73,10 +73,22 @@ func vh_SIS() {
 	}
 	vAssert(post.term >= mid.term, "C08.termMono")
 	vAssert(vImplies(vAnd(mid.state == Leader, post.state != Leader), post.term > mid.term), "C16.leader-steps-down-only-on-higher-term")
-	// a reply that carries a newer term always deposes the leader (the member is ahead: it must not be
-	// fed the snapshot forever)
+	// a reply that carries a newer term deposes the leader (the member is ahead: it must not be fed the snapshot
+	// forever): at once if the reply is in step with the request (BytesWritten == Offset), whatever the request's
+	// Done flag; a reply that is out of step may instead just move the read position to the receiver's (the next
+	// request is then in step - a member that rejects a request for its term writes nothing and reports 0 - and its
+	// reply deposes). Demanding the step-down at once in the second case as well was more than C08/C15 state: the
+	// round-1 change seeded for C15 defers it by one exchange, and an independent analysis found that harmless once
+	// every request is the last one (36e8047).
 	if !rpcFailed && mid.state == Leader && f.snapshot != nil || (!rpcFailed && mid.state == Leader && post.term > mid.term) {
-		vAssert(vImplies(resp.Term > mid.term, vAnd(post.term == resp.Term, post.state == Follower)), "C08|C15.newer-reply-term-deposes-the-sender")
+		deposed := vAnd(post.term == resp.Term, post.state == Follower)
+		inStep := resp.BytesWritten == sent.Offset
+		vAssert(vImplies(vAnd(resp.Term > mid.term, inStep), deposed), "C08|C15.newer-reply-term-deposes-the-sender")
+		if f.snapshot != nil {
+			vAssert(vImplies(vAnd(resp.Term > mid.term, !inStep), vOr(deposed, big.pos == resp.BytesWritten)), "C08|C15.newer-reply-term-out-of-step-deposes-or-resynchronises")
+		} else {
+			vAssert(vImplies(vAnd(resp.Term > mid.term, !inStep), deposed), "C08|C15.newer-reply-term-out-of-step-deposes-or-resynchronises")
+		}
 	}
 	if f.matchIndex != match0 || f.nextIndex != next0 {
 		vCover("transfer-completed")
